@@ -1249,3 +1249,55 @@ func (c *Ctx) rulesR5selfret() {
 		c.ok("C07.selfret", "negotiation emitters keep no running result across the partial-acceptance branch", token.NoPos, "no loop-carried result found under IsAuto()")
 	}
 }
+
+
+// queueSitesIn: the instructions of f that put a mutation on the queue: the
+// direct queueMutation / PrependMut sites, or the call sites of unexported
+// helpers of the package (not started with go) that contain such a site
+// themselves (one or two levels down).
+func (c *Ctx) queueSitesIn(f *ssa.Function, qm, pp *ssa.Function) []ssa.CallInstruction {
+	var out []ssa.CallInstruction
+	if qm != nil {
+		out = append(out, c.sitesIn(f, funcKey(qm))...)
+	}
+	if pp != nil {
+		out = append(out, c.sitesIn(f, funcKey(pp))...)
+	}
+	if len(out) > 0 {
+		return out
+	}
+	var reaches func(g *ssa.Function, d int) bool
+	reaches = func(g *ssa.Function, d int) bool {
+		if g == nil || len(g.Blocks) == 0 || d > 2 || g.Pkg != f.Pkg || g == qm || g == pp {
+			return false
+		}
+		if g.Object() == nil || g.Object().Exported() {
+			return false
+		}
+		if (qm != nil && len(c.sitesIn(g, funcKey(qm))) > 0) || (pp != nil && len(c.sitesIn(g, funcKey(pp))) > 0) {
+			return true
+		}
+		for _, b := range g.Blocks {
+			for _, ins := range b.Instrs {
+				if ci, ok := ins.(*ssa.Call); ok {
+					if reaches(ci.Call.StaticCallee(), d+1) {
+						return true
+					}
+				}
+			}
+		}
+		return false
+	}
+	for _, b := range f.Blocks {
+		for _, ins := range b.Instrs {
+			ci, ok := ins.(*ssa.Call)
+			if !ok {
+				continue
+			}
+			if reaches(ci.Call.StaticCallee(), 0) {
+				out = append(out, ci)
+			}
+		}
+	}
+	return out
+}
